@@ -1354,6 +1354,11 @@ pub fn c03_run(seed: u64, i: u64, tier: Tier, mon: &mut Mon, found: &mut Vec<Fou
             if rng.chance(1, 4) {
                 input = text::mutate(&mut rng, &input);
             }
+            let long_token = rng.chance(1, 150);
+            if long_token {
+                input = text::gen_long_token_text(&mut rng, opts::parse_fields(opts_ix));
+                mon.count("c03.long_token_runs");
+            }
             let as_str = rng.chance(1, 4);
             if as_str {
                 input = text::repair_utf8(&input).into_bytes();
